@@ -39,7 +39,7 @@ fn gen_ordering(rng: &mut Rng) -> Ordering {
 }
 
 /// the stub's ErrorKind enum, variant by variant, against std's
-const KINDS: &[(&str, io::ErrorKind)] = &[
+pub(crate) const KINDS: &[(&str, io::ErrorKind)] = &[
     ("NotFound", io::ErrorKind::NotFound),
     ("PermissionDenied", io::ErrorKind::PermissionDenied),
     ("ConnectionRefused", io::ErrorKind::ConnectionRefused),
